@@ -48,10 +48,11 @@ func init() {
 			}
 			return 8
 		},
-		Rule: "each case = one base byte string (classes: bloom-like 256-byte string with 1..200 bits set and leading zeros stripped as big.Int.Bytes does; real LogsBloom built with AddLog; all-zero / all-0xff / one repeated byte; uniformly random 0..8192 bytes; small-alphabet low-entropy strings up to 40 kB; periodic strings; 256-byte full-width blooms) plus derived strings: the base truncated exactly where the reference encoder defines code 512, 1024, 2048 (width change at Close) or 4095 (clear code at Close), and those ±1 byte. Each string: Compress(x) == reference legacy encoding (byte equality), Decompress(Compress(x)) == x, stdlib compress/lzw reader decodes Compress(x) to x. Non-trivial = distinct string whose encoding contains at least one dictionary code (>= 258).",
+		Rule: "each case = one base byte string (classes: bloom-like 256-byte string with 1..200 bits set and leading zeros stripped as big.Int.Bytes does; real LogsBloom built with AddLog; all-zero / all-0xff / one repeated byte; uniformly random 0..8192 bytes; small-alphabet low-entropy strings up to 40 kB; periodic strings; 256-byte full-width blooms) plus derived strings: the base truncated exactly where the reference encoder defines code 512, 1024, 2048 (width change at Close) or 4095 (clear code at Close), and those ±1 byte. Three out of four ordinary Decompress calls are immediately preceded by a Decompress of a peer-style stream derived from the same data (padding bits after EOF set to ones, truncation at any byte, bit flip, random bytes). Each string: Compress(x) == reference legacy encoding (byte equality), Decompress(Compress(x)) == x, stdlib compress/lzw reader decodes Compress(x) to x. Non-trivial = distinct string whose encoding contains at least one dictionary code (>= 258).",
 		MinNonTrivial: func(t string) int { return 30000 },
 		Required: []string{"format_compared", "roundtrip_checked", "stdlib_decoded", "reference_selfcheck_ok", "clear_code_inputs",
-			"width_10_inputs", "width_12_inputs", "close_boundary_inputs", "close_clear_inputs", "bloom_inputs", "real_logsbloom_inputs", "empty_inputs"},
+			"width_10_inputs", "width_12_inputs", "close_boundary_inputs", "close_clear_inputs", "bloom_inputs", "real_logsbloom_inputs", "empty_inputs",
+			"sequences_hostile_then_roundtrip", "hostile_decompress_ones-padding", "hostile_decompress_truncated", "hostile_decompress_bit-flip", "hostile_decompress_random", "hostile_ones_padding_still_valid"},
 		Assumptions: []string{
 			"the Go standard library compress/lzw reader is a correct independent LZW decoder, and its writer differs from the legacy format only by the leading clear code (used to calibrate the harness encoder, not to judge goloop)",
 			"the compressed form of the empty string is the empty string (headers of blocks without event logs were hashed with it)",
@@ -109,6 +110,7 @@ type refTrace struct {
 	maxWidth   uint
 	boundaryAt map[int]int // defined code (512,1024,2048,4095) -> input length consumed when it was defined by a mid-stream emission
 	closeDef   int         // code defined by the final emission
+	padBits    uint        // zero padding bits after the EOF code in the last byte
 }
 
 // refDict maps (prefix code, next byte) to the phrase's code: a flat table
@@ -189,6 +191,7 @@ func refEncode(in []byte, leadingClear bool) ([]byte, *refTrace) {
 	emit(w)
 	tr.closeDef = int(define(0, false))
 	sink.put(eofCode, width)
+	tr.padBits = (8 - sink.n%8) % 8
 	return sink.finish(), tr
 }
 
@@ -330,7 +333,7 @@ func stdEncode(b []byte) []byte {
 }
 
 // checkOne judges one input; returns the trace of the reference encoder.
-func checkOne(c *ev.Ctx, in []byte, class string) *refTrace {
+func checkOne(c *ev.Ctx, r *rand.Rand, in []byte, class string) *refTrace {
 	c.Eval(1)
 	c.Count("inputs_"+class, 1)
 	keep := append([]byte(nil), in...)
@@ -380,9 +383,16 @@ func checkOne(c *ev.Ctx, in []byte, class string) *refTrace {
 		c.Violation(key, map[string]interface{}{"class": class, "input": hx(in), "compressed": hx(got), "legacy_reference": hx(want),
 			"first_diff_byte": d, "len_got": len(got), "len_want": len(want), "clears": tr.clears, "close_defines_code": tr.closeDef})
 	}
+	// sequences: Decompress of a peer-supplied (non-canonical / damaged) stream
+	// right before the ordinary round trip; the ordinary one must not notice
+	hk1, hs1 := hostileDecompress(c, r, want, tr)
 	back := common.Decompress(got)
 	c.Count("roundtrip_checked", 1)
-	if !bytes.Equal(back, in) {
+	if !bytes.Equal(back, in) && hk1 != "" {
+		retry := common.Decompress(got)
+		c.Violation("roundtrip.state-leak.after-hostile-decompress."+hk1, map[string]interface{}{"class": class, "input": hx(in), "compressed": hx(got), "back_len": len(back), "back": hx(back),
+			"previous_decompress_input": hx(hs1), "previous_kind": hk1, "same_call_repeated_gives_input": bytes.Equal(retry, in)})
+	} else if !bytes.Equal(back, in) {
 		c.Violation("roundtrip.decompress-differs", map[string]interface{}{"class": class, "input": hx(in), "compressed": hx(got), "back_len": len(back), "back": hx(back)})
 	}
 	if d, err := stdDecode(got); err != nil || !bytes.Equal(d, in) {
@@ -390,7 +400,11 @@ func checkOne(c *ev.Ctx, in []byte, class string) *refTrace {
 	}
 	c.Count("stdlib_decoded", 1)
 	// goloop's decoder on the reference stream as well (existing blocks hold reference streams)
-	if d := common.Decompress(want); !bytes.Equal(d, in) {
+	hk2, hs2 := hostileDecompress(c, r, want, tr)
+	if d := common.Decompress(want); !bytes.Equal(d, in) && hk2 != "" {
+		c.Violation("roundtrip.state-leak.after-hostile-decompress."+hk2, map[string]interface{}{"class": class, "input": hx(in), "compressed": hx(want), "back_len": len(d),
+			"previous_decompress_input": hx(hs2), "previous_kind": hk2})
+	} else if !bytes.Equal(d, in) {
 		c.Violation("roundtrip.decompress-of-legacy-stream", map[string]interface{}{"class": class, "input": hx(in), "legacy_reference": hx(want), "back_len": len(d)})
 	}
 
@@ -413,6 +427,49 @@ func checkOne(c *ev.Ctx, in []byte, class string) *refTrace {
 		c.NonTrivial(string(in))
 	}
 	return tr
+}
+
+// hostileDecompress feeds Decompress a stream a peer could send (derived from
+// the valid stream of the current input): the valid stream with its padding
+// bits after the EOF code set to ones, a truncation (any byte position, i.e.
+// also in the middle of a code), a bit flip, random bytes, or an ordinary
+// stream followed by garbage. Nothing is demanded of its result except that
+// it returns; what is judged is the ordinary call that follows.
+func hostileDecompress(c *ev.Ctx, r *rand.Rand, valid []byte, tr *refTrace) (kind string, stream []byte) {
+	if r.Intn(4) == 0 {
+		return "", nil // plain round trip, no predecessor
+	}
+	switch k := r.Intn(6); {
+	case k <= 1 && tr.padBits > 0:
+		stream = append([]byte(nil), valid...)
+		stream[len(stream)-1] |= byte(1<<tr.padBits - 1)
+		kind = "ones-padding"
+		if d, err := stdDecode(stream); err == nil && len(d) > 0 {
+			c.Count("hostile_ones_padding_still_valid", 1)
+		}
+	case k <= 3 && len(valid) > 1:
+		stream = append([]byte(nil), valid[:1+r.Intn(len(valid)-1)]...)
+		kind = "truncated"
+	case k == 4:
+		stream = append([]byte(nil), valid...)
+		stream[r.Intn(len(stream))] ^= 1 << uint(r.Intn(8))
+		kind = "bit-flip"
+	default:
+		stream = gen.Bytes(r, 1+r.Intn(40))
+		kind = "random"
+	}
+	c.Note("hostile-decompress kind=%s stream=%x", kind, stream[:minInt(len(stream), 48)])
+	common.Decompress(stream)
+	c.Count("hostile_decompress_"+kind, 1)
+	c.Count("sequences_hostile_then_roundtrip", 1)
+	return
+}
+
+func minInt(a, b int) int {
+	if a < b {
+		return a
+	}
+	return b
 }
 
 func errStr(err error) string {
@@ -447,7 +504,7 @@ func run(c *ev.Ctx) {
 				c.Violation("logsbloom.compressed-bytes-not-compress", map[string]string{"bloom": hx(in)})
 			}
 		}
-		tr := checkOne(c, in, class)
+		tr := checkOne(c, r, in, class)
 		if ci%8 == 0 && c.WantSample() && len(in) > 0 && len(in) <= 256 {
 			c.Sample(map[string]interface{}{"class": class, "input": hx(in), "compressed": hx(common.Compress(in))})
 		}
@@ -468,7 +525,7 @@ func run(c *ev.Ctx) {
 				if d != 0 && r.Intn(3) != 0 {
 					continue
 				}
-				checkOne(c, in[:n], class+"-cut")
+				checkOne(c, r, in[:n], class+"-cut")
 			}
 		}
 	})
